@@ -42,7 +42,8 @@ TIMEOUT = {"quick": 600, "thorough": 3600}
 ASSUMPTIONS = [
     "C10: compositions are presented through a duck-typed block (getNuclides/getMicroSuffix/getNuclideNumberDensities/getNumberDensities), "
     "as armi's own test_xsCollections.MockBlock does; real Block number densities are C02's subject",
-    "C10: a write-once library property that is unset and one that holds None are observed as the same state",
+    "C10: a write-once library property that is unset and one that holds None are observed as the same state; likewise a metadata key "
+    "that is absent and one that holds None (metadata[key] returns None for both)",
     "C10: library-level neutronVelocity is documented as 'use the first one' - judged only as 'equals the velocity of some source'; "
     "XSCollection.source / libraryLabel / fileNames order / nuclide label order are order records, not content",
 ]
